@@ -310,6 +310,8 @@ def _c20_shrink(toks):
 
 
 def _c04_tags(toks, impl):
+    if toks[1] == "bigrep":
+        return ["req=bigrep", "K=%s,P=%s" % (toks[2], toks[3]), "stranded=" + toks[4], "thr=" + toks[5]]
     t = ["K=%s,P=%s" % (toks[2], toks[3]), "perm=" + ("default" if toks[4] == "default" else "random"), "stranded=" + toks[5], "thr=" + toks[6], "prune=" + toks[7]]
     if impl.startswith("sigmas="):
         sg = impl.split("|")[0][7:]
@@ -320,6 +322,8 @@ def _c04_tags(toks, impl):
 
 def _c04_nontrivial(toks, impl):
     # at least two shards and a final graph with at least two nodes
+    if toks[1] == "bigrep":
+        return impl.startswith("same=1")
     if not impl.startswith("sigmas="):
         return False
     f = impl.split("|")
@@ -409,6 +413,7 @@ PROPS = {
         "n_quick": 8000, "n_thorough": 600000,
         "nontrivial": lambda toks, impl: impl != "panic" and (toks[1] == "pset" or toks[2].count(";") >= 2), "tags": _c14_tags,
         "rule": "requests `hist <ops> <other>`: 1-25 operations from push, extend (lengths aimed at len%32 in {0,1,31}), push_bytes, set_mut, "
+                "(round 11: plus `own.a.b.r` = replace the string by `slice(a, b)[.rc()].to_owned()`, start often block-aligned, after a long first string a window of 180+ bases; every iterator is also pushed strictly beyond its end and then asked for size_hint / collected) "
                 "clear, blank, from_bytes, from_acgt_bytes, from_dna_string (10% non-ACGT characters, a quarter of them beyond ASCII: request bytes are code points 0..255, so such a character is two bytes of UTF-8); after every operation the raw "
                 "storage blocks and length are observed (serde), at the end all renderings, reverse, rc, and ==/hash/cmp against the "
                 "from_bytes route to the same bases and against `other` (random, a proper prefix, an extension by A's or random bases, "
@@ -462,6 +467,7 @@ PROPS = {
         "n_quick": 12000, "n_thorough": 800000,
         "nontrivial": lambda toks, impl: impl not in ("panic", "-"), "tags": _c13_tags,
         "rule": "requests `<ktype> getkmer|iter|iterexts|term <container> <seq> [arg]` over 12 k-mer types (K = 2..64, all five storage widths) and "
+                "(round 11: plus the container `grown.a.b.r.tail.how` - the owned copy of a view, grown by push / extend / push_bytes) "
                 "containers DnaString, forward and reverse-complemented DnaStringSlice at random offsets inside a longer string (a third of them a window `[x,y)` of such a view: `slice.a.b.r.x.y`), Lmer of "
                 "1,2,3,4,6 words (25% at max_len), DnaBytes, DnaSlice; sequence lengths: < K and = K (1/6), block boundaries 31..300 (1/6), "
                 "K..K+80; the plain `iter` request is drawn on sequences of every length (until round 8 of the seeded changes it was only the fall-back for sequences shorter than K; the evidence now counts the items each iterator request delivered), every iterator is also observed after n/3 steps and after exhaustion; one request in ten is a bulk constructor `kmersb` / `kmersa` (packed bases; text in either case with other characters); every k-mer answer carries the raw storage word. Non-trivial = the answer contains at least one k-mer.",
@@ -493,6 +499,7 @@ PROPS = {
         "n_quick": 12000, "n_thorough": 1000000,
         "nontrivial": lambda toks, impl: impl not in ("panic", "unavailable"), "tags": _c16_tags,
         "rule": "requests: `acgt auto|scalar <bytes>` (lengths 0..130 incl. 0,1,31..33,63..65,95..97,128,130; 60% ACGTacgt, 40% arbitrary bytes "
+                "(round 11: plus texts of 4 095 .. 32 790 bytes on both sides of 4 096, 8 192, 16 384, 32 768) "
                 "0..255; valid 32-byte blocks with 0-2 lanes perturbed to arbitrary values plus a tail), `kernel convert|pack <32 bytes>` "
                 "(raw AVX2 kernels through the hook wrappers, arbitrary bytes incl. >= 4 for pack), `str` (text as code points 0..255, half of the time with characters beyond ASCII; `acgt` and `str` answers carry `to_string()` as well, expected: the upper-cased input; one length in 40 is 255..2049), `only` (ASCII text with 40% "
                 "arbitrary ASCII; half of the `only` texts are built from runs of valid bases with lengths around and on multiples of 32, one to three other characters between them), `hashn <b1> <b2> <name>` (two byte strings under one read name, a third of them with a gap of 30..100 non-ACGT bytes: non-ACGT positions shared between the "
@@ -510,6 +517,7 @@ PROPS = {
         "nontrivial": lambda toks, impl: impl.startswith("passes=") and impl.split("|")[1].count(",") >= 1, "tags": _c05_tags,
         "shrink": _reads_shrink(10),
         "rule": "requests `filter K stranded report_all summarizer memory bytes_per_unit size_of_pair probes reads`: read sets from the structured "
+                "(round 11: plus `deepmix K n t stranded`: one read A^n t A^n with n > 2^19 - more than 2^20 observations in one bucket that holds several distinct k-mers - judged in closed form through the reference grouping of the short read A^(K+2) t A^(K+2), DESIGN 10.6) "
                 "generator (alphabet 1-4; uniform, chunk-pasted with reuse, s++rc(s), hairpins, tandem repeats, homopolymers, tight cycles, "
                 "reads < K, rc/duplicate/SNP/tip copies; random boundary extensions on a quarter of the reads; labels 0..2), K in "
                 "{4,5,6,8,12,16,31,32,40,41,48,64} (thorough: all 17 types with K>=4), CountFilter(n) / CountFilterSet(n) for n in {0,1,2,3,4,70000}, "
@@ -595,6 +603,7 @@ PROPS = {
         "nontrivial": lambda toks, impl: impl != "panic" and (toks[1] != "export" or toks[4].count(",") >= 1), "tags": _c20_tags,
         "shrink": _c20_shrink,
         "rule": "requests `export K stranded nodes rest`: GFA and JSON text of graphs from the pipeline (60%), hand-made empty / single-node / "
+                "(round 11: `persist graph` also assembles the same nodes from two and three shards with BaseGraph::combine, finishes, writes, reads back and compares nodes and edge lists) "
                 "link-free graphs (single and link-free nodes also on both sides of 256 bases and, one single node in twelve, of 8192 / 16384 bases, pipeline graphs with a 280-340-base read: `Debug` of a view stops printing bases there), pipeline graphs with dangling extension bits and removed nodes, with and without a `rest` object (keys with quotes, backslashes, control characters); the output paths exist beforehand and hold more bytes than the export writes; to_gfa (file) must equal write_gfa, to_gfa_with_tags (file) must be write_gfa with one tag field per segment, write_gfa into a sink accepting 1, 7, 64 bytes per call must equal it too, to_gfa_with_tags (file), to_dot (file) and `Debug` of every node are compared with the model; the JSON is additionally parsed with serde_json and its node and "
                 "link counts compared with the graph; `persist kmer|dna|exts|lmer|graph …`: the text serde_json writes is compared with the model's (`Serde.*`; for graphs the `BaseGraph` text), and the round trip is observed with equality and query "
                 "comparison. Non-trivial = export of a graph with >= 2 nodes, or a persist request.",
@@ -608,6 +617,7 @@ PROPS = {
         "n_quick": 1500, "n_thorough": 60000,
         "nontrivial": _c04_nontrivial, "tags": _c04_tags, "shrink": _reads_shrink(8),
         "rule": "requests `sharded K P perm stranded thr prune reads`: both real pipelines on the same read set from the structured generator; (K,P) in "
+                "(round 11: plus `bigrep K P stranded thr unit reps seed`: a tandem repeat of 65 536 .. 131 100 bases between random flanks, sharded against direct assembly, implementation against implementation, DESIGN 10.6) "
                 "{(4,2),(5,2),(6,2),(6,3),(8,3),(16,5)} (thorough adds (12,4),(31,6),(32,6),(48,8)); default and random minimizer permutations; "
                 "stranded 1/3 (rc mode of the partition = unstranded); thresholds 1-3; with and without the sharded pruning step. The per-shard "
                 "hash orders are read back and handed to the model, which recomputes both pipelines. Non-trivial = at least two shards and at "
